@@ -254,7 +254,12 @@ func (e *absEval) eval(v ssa.Value, path *absPath, depth int) absVal {
 				return a
 			}
 		}
-		return e.evalCall(x, path, depth)
+		return e.evalCall(x, 0, path, depth)
+	case *ssa.Extract:
+		if c, ok := x.Tuple.(*ssa.Call); ok {
+			return e.evalCall(c, x.Index, path, depth)
+		}
+		return aUnknown
 	}
 	return aUnknown
 }
@@ -263,7 +268,7 @@ func (e *absEval) eval(v ssa.Value, path *absPath, depth int) absVal {
 // package by evaluating the callee under the same scenario with its parameters bound
 // to the (abstract) arguments and its free variables to the current content of the
 // captured cells.  Anything else stays unknown.
-func (e *absEval) evalCall(x *ssa.Call, path *absPath, depth int) absVal {
+func (e *absEval) evalCall(x *ssa.Call, idx int, path *absPath, depth int) absVal {
 	if e.nest >= 3 {
 		return aUnknown
 	}
@@ -275,7 +280,7 @@ func (e *absEval) evalCall(x *ssa.Call, path *absPath, depth int) absVal {
 		return aUnknown
 	}
 	res := callee.Signature.Results()
-	if res.Len() != 1 || !types.Identical(res.At(0).Type().Underlying(), types.Typ[types.Bool]) {
+	if idx >= res.Len() || !types.Identical(res.At(idx).Type().Underlying(), types.Typ[types.Bool]) {
 		return aUnknown
 	}
 	args := make([]absVal, len(x.Call.Args))
@@ -322,8 +327,17 @@ func (e *absEval) evalCall(x *ssa.Call, path *absPath, depth int) absVal {
 			return aUnknown, false
 		},
 	}
-	mayTrue := absReachNested(callee, sub, trueGoal, e.nest+1) != nil
-	mayFalse := absReachNested(callee, sub, falseGoal, e.nest+1) != nil
+	resultMay := func(want bool) func(ret *ssa.Return, eval func(ssa.Value) absVal) bool {
+		return func(ret *ssa.Return, eval func(ssa.Value) absVal) bool {
+			if idx >= len(ret.Results) {
+				return false
+			}
+			a := eval(ret.Results[idx])
+			return !(a.k == absBool && a.b != want)
+		}
+	}
+	mayTrue := absReachNested(callee, sub, resultMay(true), e.nest+1) != nil
+	mayFalse := absReachNested(callee, sub, resultMay(false), e.nest+1) != nil
 	switch {
 	case mayTrue && !mayFalse:
 		return aBool(true)
